@@ -1,6 +1,750 @@
-//! End-to-end: delegated-account blocks through the public Scheduler API, policy on vs off.
+//! End-to-end: small EIP-7702 blocks through the public `Scheduler` API with the reserve policy
+//! on vs off, against an in-order stock-revm oracle.
+//!
+//! The oracle is independent of grevm's journal scan: it executes every transaction with stock
+//! revm (policy-off semantics) under an `Inspector` that reconstructs the surviving value
+//! movements frame by frame (CALL value, CREATE endowment, SELFDESTRUCT; reverted frames dropped).
+//! Those movements + the post-state are handed to the *extracted Coq model* (planner + scan +
+//! reverse walk + rule), which decides for every transaction whether it must be the charged
+//! top-level revert or identical to the policy being off.  The oracle follows grevm's actual
+//! decisions to obtain the next pre-state (charged-revert state computed analytically: fee, nonce
+//! bump, authorisation effects; nothing else), so every decision is checked on the state grevm
+//! really had, and the final states are compared at the end.
+use super::gen_cases::{addr, addr_id, write_tx};
 use crate::rng::Rng;
+use grevm::{
+    DelegatedSafetyConfig, GrevmConfig, InvalidTransaction, ParallelState, ParallelTakeBundle, Scheduler,
+    TxExecutionOutcome,
+};
+use revm::{
+    Context, DatabaseRef, InspectEvm, Inspector, MainBuilder, MainContext,
+    database_interface::WrapDatabaseRef,
+    interpreter::{CallInputs, CallOutcome, CreateInputs, CreateOutcome},
+};
+use revm_context::{
+    BlockEnv, CfgEnv, DBErrorMarker, TxEnv,
+    either::Either,
+    result::{EVMError, ExecutionResult},
+    transaction::{Authorization, RecoveredAuthority, RecoveredAuthorization},
+};
+use revm_database::states::bundle_state::BundleRetention;
+use revm_primitives::{Address, B256, Bytes, KECCAK_EMPTY, TxKind, U256, hardfork::SpecId};
+use revm_state::{AccountInfo, Bytecode, EvmState};
+use std::{
+    collections::{BTreeMap, BTreeSet, HashMap},
+    fmt::{self, Write as _},
+    hash::{Hash, Hasher},
+    sync::Arc,
+};
 
-pub fn e2e_case(_rng: &mut Rng, _i: u64, _inp: &mut String, _out: &mut String) {
-    unimplemented!("e2e")
+// ------------------------------------------------------------------------------------------ DB
+
+#[derive(Clone, Debug, Default)]
+pub struct MemDb {
+    pub accounts: HashMap<Address, AccountInfo>,
+    pub codes: HashMap<B256, Bytecode>,
+}
+
+#[derive(Clone, Debug)]
+pub struct DbErr(pub String);
+impl fmt::Display for DbErr {
+    fn fmt(&self, f: &mut fmt::Formatter<'_>) -> fmt::Result {
+        write!(f, "dberr:{}", self.0)
+    }
+}
+impl std::error::Error for DbErr {}
+impl DBErrorMarker for DbErr {}
+
+impl DatabaseRef for MemDb {
+    type Error = DbErr;
+    fn basic_ref(&self, address: Address) -> Result<Option<AccountInfo>, DbErr> {
+        Ok(self.accounts.get(&address).cloned())
+    }
+    fn code_by_hash_ref(&self, code_hash: B256) -> Result<Bytecode, DbErr> {
+        self.codes.get(&code_hash).cloned().ok_or_else(|| DbErr(format!("no code {code_hash}")))
+    }
+    fn storage_ref(&self, _address: Address, _index: U256) -> Result<U256, DbErr> {
+        Ok(U256::ZERO)
+    }
+    fn block_hash_ref(&self, _number: u64) -> Result<B256, DbErr> {
+        Ok(B256::ZERO)
+    }
+}
+
+impl MemDb {
+    fn put(&mut self, a: Address, balance: U256, nonce: u64, code: Option<Bytecode>) {
+        let mut info = AccountInfo { balance, nonce, ..Default::default() };
+        if let Some(code) = code {
+            info.code_hash = code.hash_slow();
+            self.codes.insert(info.code_hash, code.clone());
+            info.code = Some(code);
+        }
+        self.accounts.insert(a, info);
+    }
+}
+
+// ------------------------------------------------------------------------------------ contracts
+
+fn word(v: U256) -> [u8; 32] {
+    v.to_be_bytes::<32>()
+}
+fn addr_word(a: Address) -> [u8; 32] {
+    let mut w = [0u8; 32];
+    w[12..].copy_from_slice(a.as_slice());
+    w
+}
+
+/// CALL(gas, calldata[32..64] as address, calldata[0..32] as value, no args); POP; STOP
+fn code_fwd() -> Vec<u8> {
+    vec![0x60, 0, 0x60, 0, 0x60, 0, 0x60, 0, 0x60, 0, 0x35, 0x60, 0x20, 0x35, 0x5a, 0xf1, 0x50, 0x00]
+}
+/// two sends: (v1, t1) then (v2, t2) from calldata words 0..4
+fn code_fwd2() -> Vec<u8> {
+    let mut c = vec![0x60, 0, 0x60, 0, 0x60, 0, 0x60, 0, 0x60, 0, 0x35, 0x60, 0x20, 0x35, 0x5a, 0xf1, 0x50];
+    c.extend_from_slice(&[0x60, 0, 0x60, 0, 0x60, 0, 0x60, 0, 0x60, 0x40, 0x35, 0x60, 0x60, 0x35, 0x5a, 0xf1, 0x50, 0x00]);
+    c
+}
+/// SELFDESTRUCT(calldata[32..64])
+fn code_sd() -> Vec<u8> {
+    vec![0x60, 0x20, 0x35, 0xff]
+}
+/// CREATE(value = calldata[0..32], empty init code); POP; STOP
+fn code_cre() -> Vec<u8> {
+    vec![0x60, 0, 0x60, 0, 0x60, 0, 0x35, 0xf0, 0x50, 0x00]
+}
+/// REVERT(0, 0)
+fn code_reverter() -> Vec<u8> {
+    vec![0x60, 0, 0x60, 0, 0xfd]
+}
+/// SELFDESTRUCT(CALLER): sends its whole balance (including what it just received) back
+fn code_bouncer() -> Vec<u8> {
+    vec![0x33, 0xff]
+}
+/// init code / contract code that calls `target` with calldata (v, t) and value `w`
+fn code_caller_stub(target: Address, v: U256, t: Address, w: U256) -> Vec<u8> {
+    let mut c = vec![0x7f];
+    c.extend_from_slice(&word(v));
+    c.extend_from_slice(&[0x60, 0x00, 0x52, 0x7f]);
+    c.extend_from_slice(&addr_word(t));
+    c.extend_from_slice(&[0x60, 0x20, 0x52, 0x60, 0, 0x60, 0, 0x60, 0x40, 0x60, 0, 0x7f]);
+    c.extend_from_slice(&word(w));
+    c.push(0x73);
+    c.extend_from_slice(target.as_slice());
+    c.extend_from_slice(&[0x5a, 0xf1, 0x50, 0x00]);
+    c
+}
+
+const L_FWD: u64 = 0x1001;
+const L_FWD2: u64 = 0x1002;
+const L_SD: u64 = 0x1003;
+const L_CRE: u64 = 0x1004;
+const REVERTER: u64 = 0x2001;
+const BOUNCER: u64 = 0x2002;
+const COINBASE: u64 = 0xC0;
+fn acct_a(i: u64) -> Address {
+    addr(0xA0 + i)
+}
+fn acct_f(i: u64) -> Address {
+    addr(0xF0 + i)
+}
+fn acct_s(i: u64) -> Address {
+    addr(0x50 + i)
+}
+fn acct_x(i: u64) -> Address {
+    addr(0x70 + i)
+}
+
+// ------------------------------------------------------------------------------------ generator
+
+pub struct Block {
+    pub db: MemDb,
+    pub txs: Vec<TxEnv>,
+    /// delegated (or to-be-delegated) accounts that send transactions themselves
+    pub watched: Vec<Address>,
+}
+
+fn call_data(v: U256, t: Address) -> Bytes {
+    let mut d = Vec::with_capacity(64);
+    d.extend_from_slice(&word(v));
+    d.extend_from_slice(&addr_word(t));
+    d.into()
+}
+
+#[derive(Clone, Copy)]
+enum Amount {
+    Exact,     // leaves exactly required_after
+    OneShort,  // one wei below
+    Small,
+    All,
+    Random,
+}
+
+enum Plan {
+    /// account `who` (index into `del`) sends a plain transfer
+    Own { who: usize, gas_limit: u64, price: u128, value: u64 },
+    /// somebody makes `who`'s delegated code run
+    Run { who: usize, by_self: bool, sponsor: u64, root_value: u64, amount: Amount, via_create: bool, authorize: Option<u64>, callee: u64 },
+    /// on-the-fly delegation of a fresh account by a sponsor (type 4), calling it
+    Fresh { fresh: u64, sponsor: u64, logic: u64, amount: u64 },
+    Padding { sponsor: u64, value: u64 },
+}
+
+pub fn gen_block(rng: &mut Rng) -> Block {
+    let mut db = MemDb::default();
+    for (a, c) in [(L_FWD, code_fwd()), (L_FWD2, code_fwd2()), (L_SD, code_sd()), (L_CRE, code_cre()), (REVERTER, code_reverter()), (BOUNCER, code_bouncer())] {
+        db.put(addr(a), U256::ZERO, 1, Some(Bytecode::new_raw(c.into())));
+    }
+    for j in 0..4 {
+        db.put(acct_s(j), U256::from(10u64).pow(U256::from(24u64)), 0, None);
+    }
+    for m in 0..2 {
+        db.put(acct_x(m), U256::from(rng.below(3)), 0, None); // x2, x3 do not exist yet
+    }
+    db.put(addr(COINBASE), U256::ZERO, 0, None);
+
+    // delegated accounts: (address, logic, initial nonce)
+    let n_del = rng.range(1, 3) as usize;
+    let logics = [L_FWD, L_FWD, L_FWD, L_FWD2, L_SD, L_CRE];
+    let del: Vec<(Address, u64, u64)> =
+        (0..n_del).map(|i| (acct_a(i as u64), *rng.pick(&logics), rng.below(3))).collect();
+    // whether the account is delegated in the pre-state or by the first transaction that runs it
+    let predelegated: Vec<bool> = (0..n_del).map(|_| rng.chance(3, 4)).collect();
+
+    let n = rng.range(2, 9) as usize;
+    let mut plans: Vec<Plan> = Vec::new();
+    for _ in 0..n {
+        let who = rng.below(n_del as u64) as usize;
+        plans.push(match rng.below(10) {
+            0..=3 => Plan::Own {
+                who,
+                gas_limit: if rng.chance(3, 4) { 21_000 } else { 60_000 },
+                price: rng.below(3) as u128,
+                value: if rng.chance(1, 3) { 0 } else { rng.below(50_000) },
+            },
+            4..=7 => Plan::Run {
+                who,
+                by_self: rng.chance(1, 5),
+                sponsor: rng.below(4),
+                root_value: if rng.chance(1, 3) { rng.below(1000) } else { 0 },
+                amount: *rng.pick(&[Amount::Exact, Amount::Exact, Amount::OneShort, Amount::OneShort, Amount::Small, Amount::All, Amount::Random]),
+                via_create: rng.chance(1, 7),
+                authorize: None,
+                callee: *rng.pick(&[0x70, 0x70, 0x71, 0x72, 0x73, REVERTER, BOUNCER]),
+            },
+            8 => Plan::Fresh { fresh: rng.below(2), sponsor: rng.below(4), logic: *rng.pick(&logics), amount: rng.below(2000) },
+            _ => Plan::Padding { sponsor: rng.below(4), value: rng.below(5) },
+        });
+    }
+    // accounts not delegated in the pre-state get their designator from the first Run on them
+    let mut pending_auth: Vec<bool> = predelegated.iter().map(|p| !p).collect();
+    for p in plans.iter_mut() {
+        if let Plan::Run { who, by_self, via_create, authorize, .. } = p {
+            if pending_auth[*who] && !*by_self && !*via_create {
+                *authorize = Some(del[*who].2);
+                pending_auth[*who] = false;
+            }
+        }
+    }
+
+    // total max cost of each account's own transactions -> initial balance regime
+    let own_cost = |p: &Plan, i: usize| -> u128 {
+        match p {
+            Plan::Own { who, gas_limit, price, value } if *who == i => *gas_limit as u128 * price + *value as u128,
+            Plan::Run { who, by_self: true, .. } if *who == i => 400_000 * 1,
+            _ => 0,
+        }
+    };
+    let mut est: Vec<u128> = Vec::new();
+    for i in 0..n_del {
+        let total: u128 = plans.iter().map(|p| own_cost(p, i)).sum();
+        let balance = match rng.below(8) {
+            0 => total,
+            1 => total + 1,
+            2 => total.saturating_sub(1),
+            3 => 0,
+            4 => total / 2,
+            5 => total + rng.below(5000) as u128,
+            _ => total + 1_000_000 + rng.below(1_000_000) as u128,
+        };
+        est.push(balance);
+        let code = predelegated[i].then(|| Bytecode::new_eip7702(addr(del[i].1)));
+        db.put(del[i].0, U256::from(balance), del[i].2, code);
+    }
+
+    // nonces: every account's transactions carry consecutive nonces from its pre-state nonce (+1
+    // per authorisation applied to it earlier in the block)
+    let mut nonce: HashMap<Address, u64> = HashMap::new();
+    for (a, info) in &db.accounts {
+        nonce.insert(*a, info.nonce);
+    }
+    let next_nonce = |a: Address, nonce: &mut HashMap<Address, u64>| -> u64 {
+        let n = nonce.entry(a).or_insert(0);
+        *n += 1;
+        *n - 1
+    };
+    let auth = |authority: Address, logic: Address, n: u64| {
+        Either::Right(RecoveredAuthorization::new_unchecked(
+            Authorization { chain_id: U256::ZERO, address: logic, nonce: n },
+            RecoveredAuthority::Valid(authority),
+        ))
+    };
+
+    let mut txs = Vec::new();
+    let mut fresh_done = [false; 2];
+    for (pos, p) in plans.iter().enumerate() {
+        match p {
+            Plan::Own { who, gas_limit, price, value } => {
+                let a = del[*who].0;
+                txs.push(TxEnv {
+                    caller: a,
+                    kind: TxKind::Call(acct_x(rng.below(4))),
+                    value: U256::from(*value),
+                    gas_limit: *gas_limit,
+                    gas_price: *price,
+                    nonce: next_nonce(a, &mut nonce),
+                    ..Default::default()
+                });
+                est[*who] = est[*who].saturating_sub(21_000 * price + *value as u128);
+            }
+            Plan::Run { who, by_self, sponsor, root_value, amount, via_create, authorize, callee } => {
+                let (a, logic, _) = del[*who];
+                let required: u128 = plans[pos + 1..].iter().map(|q| own_cost(q, *who)).sum();
+                let have = est[*who] + if *by_self { 0 } else { *root_value as u128 };
+                let v: u128 = match amount {
+                    Amount::Exact => have.saturating_sub(required),
+                    Amount::OneShort => have.saturating_sub(required) + 1,
+                    Amount::Small => rng.below(10) as u128,
+                    Amount::All => have,
+                    Amount::Random => rng.below(have as u64 + 2) as u128,
+                };
+                let target = addr(*callee);
+                let data = if logic == L_FWD2 {
+                    let mut d = call_data(U256::from(v / 2), target).to_vec();
+                    d.extend_from_slice(&call_data(U256::from(v - v / 2), acct_x(rng.below(4))));
+                    d.into()
+                } else {
+                    call_data(U256::from(v), target)
+                };
+                let caller = if *by_self { a } else { acct_s(*sponsor) };
+                let mut tx = TxEnv {
+                    caller,
+                    kind: TxKind::Call(a),
+                    value: U256::from(if *by_self { 0 } else { *root_value }),
+                    gas_limit: 400_000,
+                    gas_price: 1,
+                    data,
+                    ..Default::default()
+                };
+                if *via_create {
+                    // top-level CREATE whose init code calls the delegated account
+                    tx.kind = TxKind::Create;
+                    tx.value = U256::ZERO;
+                    tx.data = code_caller_stub(a, U256::from(v), target, U256::ZERO).into();
+                }
+                if let Some(n) = authorize {
+                    tx.tx_type = 4;
+                    tx.authorization_list = vec![auth(a, addr(logic), *n)];
+                    *nonce.entry(a).or_insert(0) += 1;
+                }
+                tx.nonce = next_nonce(caller, &mut nonce);
+                txs.push(tx);
+                // estimate assumes the debit survives unless it obviously violates
+                if v <= have && have - v >= required.min(have) && *callee != REVERTER && *callee != BOUNCER {
+                    est[*who] = have - v;
+                } else {
+                    est[*who] = have;
+                }
+            }
+            Plan::Fresh { fresh, sponsor, logic, amount } => {
+                let f = acct_f(*fresh);
+                if !db.accounts.contains_key(&f) {
+                    db.put(f, U256::from(rng.below(3000)), 0, None);
+                    nonce.insert(f, 0);
+                }
+                let caller = acct_s(*sponsor);
+                let mut tx = TxEnv {
+                    caller,
+                    kind: TxKind::Call(f),
+                    gas_limit: 400_000,
+                    gas_price: 1,
+                    data: call_data(U256::from(*amount), acct_x(rng.below(4))),
+                    ..Default::default()
+                };
+                if !fresh_done[*fresh as usize] {
+                    fresh_done[*fresh as usize] = true;
+                    tx.tx_type = 4;
+                    tx.authorization_list = vec![auth(f, addr(*logic), 0)];
+                    *nonce.entry(f).or_insert(0) += 1;
+                }
+                tx.nonce = next_nonce(caller, &mut nonce);
+                txs.push(tx);
+            }
+            Plan::Padding { sponsor, value } => {
+                let caller = acct_s(*sponsor);
+                txs.push(TxEnv {
+                    caller,
+                    kind: TxKind::Call(acct_x(rng.below(4))),
+                    value: U256::from(*value),
+                    gas_limit: 21_000,
+                    gas_price: 1,
+                    nonce: next_nonce(caller, &mut nonce),
+                    ..Default::default()
+                });
+            }
+        }
+    }
+    Block { db, txs, watched: del.iter().map(|d| d.0).collect() }
+}
+
+// --------------------------------------------------------------------------------------- oracle
+
+pub fn envs() -> (CfgEnv, BlockEnv) {
+    let cfg = CfgEnv::new_with_spec(SpecId::PRAGUE);
+    let block = BlockEnv { beneficiary: addr(COINBASE), number: U256::from(100u64), ..Default::default() };
+    (cfg, block)
+}
+
+/// Surviving value movements reconstructed from frame events.
+#[derive(Default)]
+struct Moves {
+    stack: Vec<Vec<(Address, Address, U256)>>,
+    done: Vec<(Address, Address, U256)>,
+}
+
+impl Moves {
+    fn close(&mut self, ok: bool, fix_target: Option<Address>) {
+        let mut frame = self.stack.pop().expect("frame");
+        if let (Some(a), Some(first)) = (fix_target, frame.first_mut()) {
+            if first.1 == Address::ZERO {
+                first.1 = a;
+            }
+        }
+        if ok {
+            match self.stack.last_mut() {
+                Some(parent) => parent.extend(frame),
+                None => self.done.extend(frame),
+            }
+        }
+    }
+}
+
+impl<CTX> Inspector<CTX> for Moves {
+    fn call(&mut self, _: &mut CTX, inputs: &mut CallInputs) -> Option<CallOutcome> {
+        let mut frame = Vec::new();
+        if let Some(v) = inputs.transfer_value() {
+            frame.push((inputs.caller, inputs.target_address, v));
+        }
+        self.stack.push(frame);
+        None
+    }
+    fn call_end(&mut self, _: &mut CTX, _: &CallInputs, outcome: &mut CallOutcome) {
+        self.close(outcome.result.result.is_ok(), None);
+    }
+    fn create(&mut self, _: &mut CTX, inputs: &mut CreateInputs) -> Option<CreateOutcome> {
+        // the endowment's recipient is known at create_end
+        self.stack.push(vec![(inputs.caller(), Address::ZERO, inputs.value())]);
+        None
+    }
+    fn create_end(&mut self, _: &mut CTX, _: &CreateInputs, outcome: &mut CreateOutcome) {
+        let ok = outcome.result.result.is_ok() && outcome.address.is_some();
+        self.close(ok, outcome.address);
+    }
+    fn selfdestruct(&mut self, contract: Address, target: Address, value: U256) {
+        if let Some(frame) = self.stack.last_mut() {
+            frame.push((contract, target, value));
+        }
+    }
+}
+
+pub struct StockRun {
+    pub result: ExecutionResult,
+    pub state: EvmState,
+    pub moves: Vec<(Address, Address, U256)>,
+}
+
+pub fn run_stock(db: &MemDb, tx: &TxEnv) -> Result<StockRun, InvalidTransaction> {
+    let (cfg, block) = envs();
+    let mut evm = Context::mainnet()
+        .with_db(WrapDatabaseRef(db))
+        .with_cfg(cfg)
+        .with_block(block)
+        .build_mainnet_with_inspector(Moves::default());
+    match evm.inspect_tx(tx.clone()) {
+        Ok(rs) => {
+            let moves = std::mem::take(&mut evm.inspector.done);
+            Ok(StockRun { result: rs.result, state: rs.state, moves })
+        }
+        Err(EVMError::Transaction(e)) => Err(e),
+        Err(e) => panic!("stock revm failed: {e:?}"),
+    }
+}
+
+fn commit(db: &mut MemDb, state: &EvmState) {
+    for (a, acc) in state {
+        if !acc.is_touched() {
+            continue;
+        }
+        if acc.is_selfdestructed() || acc.is_empty() {
+            db.accounts.remove(a);
+            continue;
+        }
+        let mut info = acc.info.clone();
+        if let Some(code) = &info.code {
+            db.codes.insert(info.code_hash, code.clone());
+        } else if info.code_hash != KECCAK_EMPTY && info.code_hash != B256::ZERO {
+            info.code = db.codes.get(&info.code_hash).cloned();
+        }
+        db.accounts.insert(*a, info);
+    }
+}
+
+/// The state after a charged top-level revert, from the pre-state alone: fee (effective price =
+/// gas_price, base fee 0) moved from the caller to the beneficiary, caller nonce bumped, valid
+/// authorisations applied; nothing else.
+fn charged_revert_state(db: &MemDb, tx: &TxEnv, gas_used: u64) -> MemDb {
+    let mut next = db.clone();
+    let fee = U256::from(tx.gas_price) * U256::from(gas_used);
+    {
+        let caller = next.accounts.entry(tx.caller).or_default();
+        caller.balance -= fee;
+        caller.nonce += 1;
+    }
+    for item in &tx.authorization_list {
+        let Either::Right(rec) = item else { continue };
+        let Some(authority) = rec.authority() else { continue };
+        let inner: &Authorization = rec;
+        let current = next.accounts.get(&authority).cloned().unwrap_or_default();
+        let code_ok = current.code.as_ref().is_none_or(|c| c.is_empty() || c.is_eip7702());
+        if !inner.chain_id.is_zero() || current.nonce != inner.nonce || !code_ok {
+            continue;
+        }
+        let entry = next.accounts.entry(authority).or_default();
+        entry.nonce += 1;
+        if inner.address.is_zero() {
+            entry.code = None;
+            entry.code_hash = KECCAK_EMPTY;
+        } else {
+            let code = Bytecode::new_eip7702(inner.address);
+            entry.code_hash = code.hash_slow();
+            next.codes.insert(entry.code_hash, code.clone());
+            entry.code = Some(code);
+        }
+    }
+    if !fee.is_zero() {
+        next.accounts.entry(addr(COINBASE)).or_default().balance += fee;
+    }
+    // a fee of zero still touches the beneficiary; an empty touched account is cleared (accounts
+    // the transaction did not touch stay as they are, even if empty)
+    let coinbase = addr(COINBASE);
+    if next.accounts.get(&coinbase).is_some_and(|i| i.balance.is_zero() && i.nonce == 0 && i.code.as_ref().is_none_or(|c| c.is_empty())) {
+        next.accounts.remove(&coinbase);
+    }
+    next
+}
+
+// ---------------------------------------------------------------------------------------- grevm
+
+type Norm = (U256, u64, B256);
+
+fn norm(info: Option<&AccountInfo>) -> Norm {
+    match info {
+        None => (U256::ZERO, 0, KECCAK_EMPTY),
+        Some(i) => (i.balance, i.nonce, if i.code_hash == B256::ZERO { KECCAK_EMPTY } else { i.code_hash }),
+    }
+}
+
+pub struct GrevmRun {
+    pub outcomes: Vec<TxExecutionOutcome>,
+    pub finals: BTreeMap<Address, Norm>,
+    pub error: Option<String>,
+}
+
+pub fn run_grevm(db: &MemDb, txs: &Arc<Vec<TxEnv>>, safety: DelegatedSafetyConfig, force_sequential: bool, concurrency_level: usize) -> GrevmRun {
+    let (cfg, block) = envs();
+    let state = ParallelState::new(Arc::new(db.clone()), true, true);
+    let config = GrevmConfig { concurrency_level, force_sequential, min_parallel_txs: 0, delegated_safety: safety };
+    let scheduler = Scheduler::new_with_runtime_config(cfg, block, txs.clone(), state, None, config);
+    let error = scheduler.execute().err().map(|e| format!("{e:?}"));
+    let (outcomes, mut state) = scheduler.take_result_and_state();
+    let bundle = state.parallel_take_bundle(BundleRetention::Reverts);
+    let mut finals = BTreeMap::new();
+    for (a, info) in &db.accounts {
+        finals.insert(*a, norm(Some(info)));
+    }
+    for (a, acc) in &bundle.state {
+        finals.insert(*a, norm(acc.info.as_ref()));
+    }
+    GrevmRun { outcomes, finals, error }
+}
+
+fn hash_str(s: &str) -> u64 {
+    let mut h = std::collections::hash_map::DefaultHasher::new();
+    s.hash(&mut h);
+    h.finish()
+}
+
+pub fn result_digest(r: &ExecutionResult) -> String {
+    let class = match r {
+        ExecutionResult::Success { .. } => 'S',
+        ExecutionResult::Revert { .. } => 'R',
+        ExecutionResult::Halt { .. } => 'H',
+    };
+    format!("{class}{}-{:x}", r.tx_gas_used(), hash_str(&format!("{r:?}")) & 0xffff_ffff)
+}
+
+pub fn outcome_digest(o: &TxExecutionOutcome) -> String {
+    match o {
+        TxExecutionOutcome::Executed(r) => result_digest(r),
+        TxExecutionOutcome::Skipped(e) => skip_digest(e),
+    }
+}
+
+fn skip_digest(e: &InvalidTransaction) -> String {
+    let text = format!("{e:?}");
+    let name: String = text.chars().take_while(|c| c.is_alphanumeric()).collect();
+    format!("K{name}-{:x}", hash_str(&text) & 0xffff_ffff)
+}
+
+fn same_runs(a: &GrevmRun, b: &GrevmRun) -> Option<String> {
+    if a.error != b.error {
+        return Some(format!("error:{:?}/{:?}", a.error, b.error).replace(' ', "_"));
+    }
+    if a.outcomes.len() != b.outcomes.len() {
+        return Some(format!("len:{}/{}", a.outcomes.len(), b.outcomes.len()));
+    }
+    for (i, (x, y)) in a.outcomes.iter().zip(&b.outcomes).enumerate() {
+        if x != y {
+            return Some(format!("tx{i}:{}/{}", outcome_digest(x), outcome_digest(y)));
+        }
+    }
+    diff_finals(&a.finals, &b.finals)
+}
+
+fn diff_finals(a: &BTreeMap<Address, Norm>, b: &BTreeMap<Address, Norm>) -> Option<String> {
+    let empty = norm(None);
+    let keys: BTreeSet<&Address> = a.keys().chain(b.keys()).collect();
+    for k in keys {
+        let (x, y) = (a.get(k).unwrap_or(&empty), b.get(k).unwrap_or(&empty));
+        if x != y {
+            return Some(format!("{}:{:x}.{}.{:x}/{:x}.{}.{:x}", addr_id(*k), x.0, x.1, x.2, y.0, y.1, y.2));
+        }
+    }
+    None
+}
+
+fn flag(out: &mut String, name: &str, problem: Option<String>) {
+    match problem {
+        None => write!(out, " {name}:1").unwrap(),
+        Some(p) => write!(out, " {name}:0@{p}").unwrap(),
+    }
+}
+
+/// e2e <n> {tx}*n <m> { X <txid> <nstate> {addr bal deleg}* <nentries> {entry}* <off> <viol> | K <txid> <digest> }*m
+/// impl:  o:<actual outcome digests, policy on, sequential> v:<which were charged reverts>
+///        par=seq off=stock final fund  (harness-internal cross-checks; `1` = agree)
+pub fn e2e_case(rng: &mut Rng, _i: u64, inp: &mut String, out: &mut String) {
+    let block = gen_block(rng);
+    let txs = Arc::new(block.txs.clone());
+    let n = txs.len();
+    write!(inp, "e2e {n}").unwrap();
+    for tx in txs.iter() {
+        write_tx(inp, tx);
+    }
+
+    let on_seq = run_grevm(&block.db, &txs, DelegatedSafetyConfig::reserve_only(), true, 4);
+    let on_par = run_grevm(&block.db, &txs, DelegatedSafetyConfig::reserve_only(), false, 4);
+    let off_seq = run_grevm(&block.db, &txs, DelegatedSafetyConfig::disabled(), true, 4);
+
+    // --- oracle following the decisions grevm actually made (policy on, sequential) ---
+    let mut cur = block.db.clone();
+    let mut pure_off = block.db.clone(); // plain stock revm, policy-off semantics throughout
+    let mut pure_off_outcomes = Vec::new();
+    let mut decisions = String::new();
+    write!(inp, " {n}").unwrap();
+    for (txid, tx) in txs.iter().enumerate() {
+        match run_stock(&pure_off, tx) {
+            Ok(run) => {
+                commit(&mut pure_off, &run.state);
+                pure_off_outcomes.push(result_digest(&run.result));
+            }
+            Err(e) => pure_off_outcomes.push(skip_digest(&e)),
+        }
+        let actual = on_seq.outcomes.get(txid).map(outcome_digest).unwrap_or_else(|| "missing".into());
+        match run_stock(&cur, tx) {
+            Err(e) => {
+                write!(inp, " K {txid:x} {}", skip_digest(&e)).unwrap();
+                decisions.push('0');
+            }
+            Ok(run) => {
+                let off = result_digest(&run.result);
+                let viol_result = ExecutionResult::Revert { gas: *run.result.gas(), logs: vec![], output: Bytes::new() };
+                let viol = result_digest(&viol_result);
+                // final-state view at check time: post-state of the policy-off execution
+                let mut view: Vec<(Address, U256, bool)> = run
+                    .state
+                    .iter()
+                    .map(|(a, acc)| (*a, acc.info.balance, acc.info.code.as_ref().is_some_and(|c| c.is_eip7702())))
+                    .collect();
+                view.sort();
+                write!(inp, " X {txid:x} {}", view.len()).unwrap();
+                for (a, b, d) in &view {
+                    write!(inp, " {} {:x} {}", addr_id(*a), b, *d as u8).unwrap();
+                }
+                // surviving movements, then the caller's reimbursement as revm journals it
+                let caller_final = run.state.get(&tx.caller).map_or(U256::ZERO, |a| a.info.balance);
+                let reimbursed = U256::from(tx.gas_price) * U256::from(tx.gas_limit - run.result.tx_gas_used());
+                write!(inp, " {}", run.moves.len() + 1).unwrap();
+                for (f, t, v) in &run.moves {
+                    write!(inp, " T {} {} {:x}", addr_id(*f), addr_id(*t), v).unwrap();
+                }
+                write!(inp, " C {} {:x}", addr_id(tx.caller), caller_final - reimbursed).unwrap();
+                write!(inp, " {off} {viol}").unwrap();
+                // follow grevm's decision
+                if actual != off && actual == viol {
+                    decisions.push('1');
+                    cur = charged_revert_state(&cur, tx, run.result.tx_gas_used());
+                } else {
+                    decisions.push('0');
+                    commit(&mut cur, &run.state);
+                }
+            }
+        }
+    }
+
+    out.push_str("o:");
+    for o in &on_seq.outcomes {
+        write!(out, "{},", outcome_digest(o)).unwrap();
+    }
+    write!(out, " v:{decisions}").unwrap();
+    flag(out, "par=seq", same_runs(&on_par, &on_seq));
+    // policy off = stock revm
+    let mut off_problem = off_seq.error.clone();
+    for (i, d) in pure_off_outcomes.iter().enumerate() {
+        let got = off_seq.outcomes.get(i).map(outcome_digest).unwrap_or_default();
+        if off_problem.is_none() && &got != d {
+            off_problem = Some(format!("tx{i}:{got}/{d}"));
+        }
+    }
+    let stock_finals: BTreeMap<Address, Norm> = pure_off.accounts.iter().map(|(a, i)| (*a, norm(Some(i)))).collect();
+    flag(out, "off=stock", off_problem.or_else(|| diff_finals(&off_seq.finals, &stock_finals)));
+    // final state of the policy-on run = oracle following the checked decisions
+    let oracle_finals: BTreeMap<Address, Norm> = cur.accounts.iter().map(|(a, i)| (*a, norm(Some(i)))).collect();
+    flag(out, "final", on_seq.error.clone().or_else(|| diff_finals(&on_seq.finals, &oracle_finals)));
+    // an account that could pay for all its block transactions at block start is never skipped
+    // for lack of funds (policy on)
+    let mut fund_problem = None;
+    for a in &block.watched {
+        let total = txs.iter().filter(|t| t.caller == *a).fold(U256::ZERO, |s, t| {
+            s.saturating_add(U256::from(t.gas_limit as u128 * t.gas_price).saturating_add(t.value))
+        });
+        let start = block.db.accounts.get(a).map_or(U256::ZERO, |i| i.balance);
+        if start >= total {
+            for (i, t) in txs.iter().enumerate() {
+                if t.caller == *a && matches!(on_seq.outcomes.get(i), Some(TxExecutionOutcome::Skipped(InvalidTransaction::LackOfFundForMaxFee { .. }))) {
+                    fund_problem = Some(format!("{}@tx{i}", addr_id(*a)));
+                }
+            }
+        }
+    }
+    flag(out, "fund", fund_problem);
 }
